@@ -460,7 +460,12 @@ static void c07_file_checks(const std::string& F, const std::string& keybase, co
 			for (int raw = 1; raw >= 0; raw--) {
 				if (vf::deadline_passed()) { st.capped("deadline inside C07 edits"); return; }
 				NifFile x;
-				if (s1::load(x, F) != 0) { st.add("file_not_accepted"); return; }
+				if (s1::load(x, F) != 0) {
+					// F was written by the library itself (s1 / chain / scene-graph builder, or is a sample file)
+					np::Header hf = np::parse(F);
+					st.violation(keybase + ":written-file-does-not-load", what + ": the library does not load the file it wrote; independent header parser: " + (hf.ok ? std::string("accepts it") : "rejects it (" + hf.err + ")"), cj);
+					return;
+				}
 				auto& hdr = x.GetHeader();
 				auto shapes = x.GetShapes();
 				bool applied = true;
